@@ -164,7 +164,7 @@ def run_case(case):
         if far is None:
             if moved:
                 viol.append((f"C04/torsion/{base}/{pos}/{names[1]}-{names[2]}/"
-                             "rotation-about-ring-bond",
+                             "axis-is-not-a-rotatable-bond",
                              {"moved": sorted(moved)}))
             return
         wrong = moved - far
